@@ -25,6 +25,7 @@ import (
 type c15Params struct {
 	Store string `json:"store"` // sql-mem | sql-file | fs
 	Steps int    `json:"steps"`
+	Hot   bool   `json:"hot,omitempty"` // two names only, mostly logged sets: logs of 50..200 entries
 }
 
 var c15TxID = uuid.MustParse("a1dbfcc4-f6da-454c-a783-f1b70d347baf")
@@ -115,6 +116,7 @@ type c15Runner struct {
 	trace []string
 	rng   *rand.Rand
 	clock int64
+	hot   bool
 }
 
 func (r *c15Runner) fail(clause, f string, a ...interface{}) {
@@ -264,6 +266,9 @@ func (r *c15Runner) step() bool {
 	}
 	before := r.m.clone()
 	op := rng.Intn(16)
+	if r.hot && rng.Intn(5) != 0 {
+		op = 2
+	}
 	if r.kind == "fs" && op >= 12 {
 		op = rng.Intn(12)
 	}
@@ -564,6 +569,10 @@ func c15Run(c *fw.Case, env *fw.Env) *fw.Obs {
 		// the transaction rows the logged txids refer to
 		r.s.NewTransaction(&ref.Transaction{ID: c15TxID, Status: ref.TSInProgress, Begin: time.Unix(1600000000, 0)})
 	}
+	if p.Hot {
+		r.hot, r.names = true, r.names[:2]
+		o.Ev("programs_with_long_logs", 1)
+	}
 	states := map[string]bool{}
 	for i := 0; i < p.Steps; i++ {
 		if !r.step() {
@@ -611,6 +620,10 @@ func init() {
 					st = "fs"
 				}
 				l.Add("program", c15Params{Store: st, Steps: 5 + rng.Intn(56)}, 0)
+			}
+			// long logs: two names, mostly logged sets
+			for i := 0; i < l.N(9, 300); i++ {
+				l.Add("program", c15Params{Store: []string{"sql-mem", "sql-file", "fs"}[i%3], Steps: 140 + rng.Intn(160), Hot: true}, 0)
 			}
 			// concurrent clients on one file (linearizability per name + reflog chain)
 			for i := 0; i < l.N(8, 600); i++ {
